@@ -499,10 +499,12 @@ def r1_residuals(method, Zrow, Xrow, P, F_repo, nel, na, nb):
     return {"commutator": comm, "reproduction": repro, "gap": min(gaps) if gaps else None, "dF": dF, "nbas": len(idx)}
 
 
-def r1_singlet_stability(method, Z, X, P):
+def r1_singlet_stability(method, Z, X, P, triplet=False):
     """lowest eigenvalue (eV) of the real singlet RHF stability matrix A+B at the closed-shell density P (compact
     or padded layout of ONE molecule), built from the reference model's dense integrals and the orbitals of the
     reference Fock matrix at P.  Negative => the SCF solution is a saddle point, not a minimum.
+    triplet=True: the RHF->UHF (triplet) stability matrix instead (negative => a symmetry-broken unrestricted
+    state lies below the restricted one).
     -> (lambda_min, gap) or None when the reference model does not cover the method."""
     if method not in R1_METHODS:
         return None
@@ -527,6 +529,9 @@ def r1_singlet_stability(method, Z, X, P):
     ijab = np.einsum("mi,nj,mnls,la,sb->ijab", Co, Co, eri, Cv, Cv, optimize=True)
     # A = d(e_a - e_i) + 2(ia|jb) - (ij|ab);  B = 2(ia|jb) - (ib|ja)
     M = 4.0 * iajb - ijab.transpose(0, 2, 1, 3) - iajb.transpose(0, 3, 2, 1)
+    if triplet:
+        # RHF -> UHF (triplet) stability: 3A + 3B = d(e_a - e_i) - (ij|ab) - (ib|ja)
+        M = -ijab.transpose(0, 2, 1, 3) - iajb.transpose(0, 3, 2, 1)
     M = M.reshape(no * nv, no * nv)
     M = M + np.diag((ev[None, :] - eo[:, None]).ravel())
     lam = np.linalg.eigvalsh(0.5 * (M + M.T))
